@@ -317,6 +317,10 @@ pub struct PCfg {
     pub sibling_closures: bool,
     /// a numeric local assigned and read by two closures of its frame and by the frame itself
     pub shared_cell: bool,
+    /// record update `{r <- f = e}` inside the initialiser of a global
+    pub record_update_in_globals: bool,
+    /// the frame may assign a local after a lambda that can see it was passed to a function
+    pub assign_after_closure_escapes: bool,
     /// array indices may be +-inf (off: the index is `sin(e) * 6.0`, finite or NaN)
     pub array_index_inf: bool,
     /// nested tuple types (e.g. `(float,(float,float))`) for parameters, returns and `self`
@@ -363,6 +367,8 @@ impl Default for PCfg {
             rec_pattern_thirds: 1,
             sibling_closures: true,
             shared_cell: true,
+            record_update_in_globals: true,
+            assign_after_closure_escapes: true,
             array_index_inf: true,
             nested_tuples: false,
         }
@@ -421,6 +427,7 @@ pub struct PG<'a> {
     globals: Vec<VarInfo>,
     pub feat: Features,
     fuel: i32,
+    in_global_init: bool,
     site_counts: Vec<(String, u32)>,
 }
 
@@ -428,7 +435,7 @@ const IDENTS: &[&str] = &["a", "b", "c", "d", "e", "k", "m", "n", "p", "q", "r",
 
 impl<'a> PG<'a> {
     pub fn new(g: &'a mut Gen, cfg: PCfg) -> Self {
-        PG { g, cfg, next_id: 0, next_name: 0, fns: vec![], globals: vec![], feat: Features::default(), fuel: 0, site_counts: vec![] }
+        PG { g, cfg, next_id: 0, next_name: 0, fns: vec![], globals: vec![], feat: Features::default(), fuel: 0, in_global_init: false, site_counts: vec![] }
     }
     fn id(&mut self) -> u32 {
         self.next_id += 1;
@@ -1029,7 +1036,7 @@ impl<'a> PG<'a> {
         let ty = Ty::Rec(fs.to_vec());
         let vars = self.vars_of(sc, &ty);
         self.feat.records += 1;
-        match self.g.weighted(&[5, if vars.is_empty() { 0 } else { 3 }, if vars.is_empty() { 0 } else { 2 }]) {
+        match self.g.weighted(&[5, if vars.is_empty() { 0 } else { 3 }, if vars.is_empty() || (self.in_global_init && !self.cfg.record_update_in_globals) { 0 } else { 2 }]) {
             0 => E::Rec(fs.iter().map(|(n, t)| (n.clone(), self.expr(t, sc))).collect()),
             1 => E::Var(self.g.pick(&vars).name.clone()),
             _ => {
@@ -1047,7 +1054,15 @@ impl<'a> PG<'a> {
         let named: Vec<FnSig> = self.fns.iter().filter(|f| !f.stateful && !f.maker && f.params == ps && f.ret == *r).cloned().collect();
         let vars = self.vars_of(sc, &ty);
         match self.g.weighted(&[4, if named.is_empty() { 0 } else { 3 }, if vars.is_empty() { 0 } else { 2 }]) {
-            0 => self.lambda(ps, r, sc),
+            0 => {
+                let l = self.lambda(ps, r, sc);
+                if !self.cfg.assign_after_closure_escapes {
+                    // the lambda is about to be passed on: from here on the frame must not assign
+                    // the variables it may have captured (recorded VM finding)
+                    sc.vars.iter_mut().for_each(|v| v.assignable = false);
+                }
+                l
+            }
             1 => E::Var(self.g.pick(&named).name.clone()),
             _ => E::Var(self.g.pick(&vars).name.clone()),
         }
@@ -1186,7 +1201,9 @@ impl<'a> PG<'a> {
                     let mut sc = Scope { vars: vec![], self_ty: None, allow_state: false, in_branch: false, fn_has_delay: false, allow_assign: false, allow_closure: false, in_lambda: true, depth_stateful: 0, in_tuple_lit: false, in_operand: false, in_cond: false };
                     let saved = self.fuel;
                     self.fuel = 5;
+                    self.in_global_init = true;
                     let e = self.expr(&t, &mut sc);
+                    self.in_global_init = false;
                     self.fuel = saved;
                     tops.push(Top::Let(gname.clone(), t.clone(), e));
                     self.globals.push(VarInfo { name: gname, ty: t, assignable: false, destructured: false, captured: false });
